@@ -140,6 +140,8 @@ struct SubInst {
     first_deliveries: Vec<(u64, usize, usize, u128)>, // mkey, lo_idx, hi_idx, id
     /// a consumer call of this subscription was abandoned since the last quiescent point
     consumer_abort_since_qp: bool,
+    /// number of distinct ack ids under which each message was handed out
+    lease_count: HashMap<u64, u32>,
     delivered_once: HashSet<u64>,
     view: Option<SubView>,
     req_push: Option<PushReq>,
@@ -485,7 +487,9 @@ impl<'a> Model<'a> {
             lo = lo.min(now);
         }
         self.subs[si].state_seen.insert(mkey, idx);
-        self.subs[si].lease_by_ack.insert(r.ack_id.clone(), mkey);
+        if self.subs[si].lease_by_ack.insert(r.ack_id.clone(), mkey).is_none() {
+            *self.subs[si].lease_count.entry(mkey).or_insert(0) += 1;
+        }
         self.subs[si].msgs.insert(mkey, Ms::Leased { ack: r.ack_id.clone(), lo, hi, modified: false, maybe_gone, maybe_acked, hi_known: hi });
     }
 
@@ -611,6 +615,7 @@ impl<'a> Model<'a> {
 
     fn apply_ack_return_inner(&mut self, snap: &[(usize, u64, bool, bool)], ids: &[String], acked_now: &mut Vec<(usize, u64)>) {
         for (si, k, live, window) in snap {
+            let other_lease = self.subs[*si].lease_count.get(k).copied().unwrap_or(0) >= 2;
             if let Some(st) = self.subs[*si].msgs.get_mut(k) {
                 if let Ms::Leased { ack, maybe_gone, .. } = st {
                     if ids.contains(ack) {
@@ -619,7 +624,10 @@ impl<'a> Model<'a> {
                             acked_now.push((*si, *k));
                             self.rep.feat.acks_effective += 1;
                         } else if *window || *maybe_gone {
-                            *st = Ms::Limbo;
+                            // acknowledged or back in the queue - or, when the message was handed
+                            // out under another id as well and the order of the two hand-outs is
+                            // not known, still leased under that other id
+                            *st = if other_lease { Ms::Maybe } else { Ms::Limbo };
                         }
                     }
                 }
@@ -1181,6 +1189,7 @@ impl<'a> Model<'a> {
                             pending_ctrl: Vec::new(),
                             first_deliveries: Vec::new(),
                             consumer_abort_since_qp: false,
+                            lease_count: HashMap::new(),
                             delivered_once: HashSet::new(),
                             view: Some(view.clone()),
                             req_push: push.clone(),
@@ -1207,7 +1216,13 @@ impl<'a> Model<'a> {
                             .filter(|o| !self.delete_target.contains_key(&o.id))
                             .filter(|o| {
                                 let (di, dr) = (o.invoke_idx, o.done.as_ref().unwrap().0);
-                                !self.tr.calls.iter().any(|x| x.id != c.id && matches!(&x.req, Req::CreateSub { name: xn, .. } if xn == name) && x.invoke_idx < dr && x.done.as_ref().map(|d| d.0 > di).unwrap_or(true))
+                                // (other creates that were answered with an error created nothing)
+                                !self.tr.calls.iter().any(|x| {
+                                    x.id != c.id
+                                        && matches!(&x.req, Req::CreateSub { name: xn, .. } if xn == name)
+                                        && x.invoke_idx < dr
+                                        && x.done.as_ref().map(|d| d.0 > di && d.2.code() == 0).unwrap_or(true)
+                                })
                             })
                             .map(|o| (o.invoke_idx, o.done.as_ref().unwrap().0))
                             .next();
@@ -1782,12 +1797,16 @@ impl<'a> Model<'a> {
         let acks_n: Vec<String> = acks.iter().map(|a| norm_ack(a)).collect();
         // an id that one and the same request both acknowledges and modifies is acknowledged:
         // the acknowledgement of a delivery that was outstanding when the request was made is final
-        let mods_n: Vec<(String, i32)> = mods.iter().map(|(a, n)| (norm_ack(a), *n)).filter(|(a, _)| !acks_n.contains(a)).collect();
-        let (acks, mods) = (&acks_n[..], &mods_n[..]);
         let (sub, mut si) = match self.streams.get(&call) {
             Some(st) => (st.sub.clone(), st.sub_inst),
             None => return,
         };
+        // (only for a delivery that is outstanding now; an id that names no delivery yet - a
+        // predictable id sent ahead of its lease - can meet a lease created between the two halves
+        // of the message, so both halves stay in play)
+        let known_lease = |a: &String| si.map(|i| self.subs[i].lease_by_ack.contains_key(a)).unwrap_or(false);
+        let mods_n: Vec<(String, i32)> = mods.iter().map(|(a, n)| (norm_ack(a), *n)).filter(|(a, _)| !(acks_n.contains(a) && known_lease(a))).collect();
+        let (acks, mods) = (&acks_n[..], &mods_n[..]);
         if si.is_none() {
             // the stream was opened while its subscription's create was still in flight
             si = self.cur_sub(&sub);
@@ -1992,6 +2011,15 @@ impl<'a> Model<'a> {
             let name = self.subs[si].name.clone();
             let cons: Vec<CallId> = self.subs[si].consumers.iter().cloned().collect();
             for c in cons {
+                // a consumer call made while a create of the same name was in flight may have
+                // found the new subscription of that name, which nobody deleted
+                let inv = self.tr.calls[c].invoke_idx;
+                let maybe_new_instance = self.tr.calls.iter().any(|o| {
+                    matches!(&o.req, Req::CreateSub { name: cn, .. } if *cn == name) && o.invoke_idx < inv && o.done.as_ref().map(|d| d.0 > inv).unwrap_or(true) && o.aborted.map(|a| a.0 > inv).unwrap_or(true)
+                });
+                if maybe_new_instance {
+                    continue;
+                }
                 match &self.tr.calls[c].req {
                     Req::Pull { .. } => {
                         // still pending at the first quiescent point after the delete returned
